@@ -71,8 +71,10 @@ class PolicyModel:
         self.ctxopt = {}  # (cat, key) -> value for default / deprecated
         self.opt = {}  # (cat, scheme|None, option) -> value
         self.categories = set()
+        # settings that travel inside pre-configured hasher objects: the weakest layer, below every configuration key
+        self.objopt = {(s, k): v for s, kw in (config.get("scheme_objects") or {}).items() for k, v in kw.items()}
         for k, v in config.items():
-            if k == "schemes":
+            if k in ("schemes", "scheme_objects"):
                 continue
             parts = k.split("__")
             if len(parts) == 1:
@@ -133,18 +135,29 @@ class PolicyModel:
         for c, s in ((None, None), (cat, None), (None, scheme), (cat, scheme)):
             if (c, s, key) in self.opt and (c is None or c == cat):
                 val = self.opt[(c, s, key)]
+        if val is None and key not in ("min_rounds", "max_rounds", "default_rounds", "rounds"):
+            val = self.objopt.get((scheme, key))
         return val
+
+    def _cost_opt(self, scheme, cat, key):
+        """min_rounds / max_rounds / default_rounds as in force: the configuration's own key, else the configuration's 'rounds'
+        (which pins all three unless given in the same layer), else what a pre-configured hasher object carries"""
+        v = self.option(scheme, cat, key)
+        if v is None:
+            v = self.option(scheme, cat, "rounds")
+        if v is None:
+            v = self.objopt.get((scheme, key))
+        if v is None:
+            v = self.objopt.get((scheme, "rounds"))
+        return v
 
     def window(self, scheme, cat):
         f = self.facts[scheme]
         if not f.has_rounds:
             return (None, None)
         # '<scheme>__rounds' sets default, minimum and maximum at once; each stays overridable by its own option (given at any level)
-        both = self.option(scheme, cat, "rounds")
-        lo = self.option(scheme, cat, "min_rounds")
-        hi = self.option(scheme, cat, "max_rounds")
-        lo = both if lo is None else lo
-        hi = both if hi is None else hi
+        lo = self._cost_opt(scheme, cat, "min_rounds")
+        hi = self._cost_opt(scheme, cat, "max_rounds")
         lo = f.clamp(int(_num(lo))) if lo is not None else None
         hi = f.clamp(int(_num(hi))) if hi is not None else None
         return (lo, hi)
@@ -157,9 +170,7 @@ class PolicyModel:
         f = self.facts[scheme]
         if not f.has_rounds:
             return None
-        d = self.option(scheme, cat, "default_rounds")
-        if d is None:
-            d = self.option(scheme, cat, "rounds")
+        d = self._cost_opt(scheme, cat, "default_rounds")
         d = f.clamp(int(_num(d))) if d is not None else f.default
         if d is None:
             return None
@@ -204,7 +215,11 @@ class PolicyModel:
                 if hi is not None and c > hi:
                     return (True, "above-max")
         try:
-            own = bool(f.handler.needs_update(h))
+            hnd = f.handler
+            ver = self.option(s, cat, "version")
+            if ver is not None and hasattr(hnd, "version"):
+                hnd = hnd.using(version=int(_num(ver)))  # "the scheme itself flags it" is asked of the scheme as configured
+            own = bool(hnd.needs_update(h))
         except Exception:
             own = False
         if own:
